@@ -28,10 +28,12 @@ def sym_record(eng, st, cls, name=None):
             v, fs = sym_record(eng, st, ty[1][1], f"{name or cls}_{f}")
             vals[f] = VOpt(fresh(f"{name or cls}_{f}_isnone", B), v)
             facts += fs
+        elif isinstance(ty, tuple) and ty[0] == "opt" and ty[1] != "any":
+            v, fs = sym_value(f"{name or cls}_{f}", ty[1])
+            vals[f] = VOpt(fresh(f"{name or cls}_{f}_isnone", B), v)
+            facts += fs
         elif isinstance(ty, tuple) and ty[0] == "opt":
             t = fresh(f"{name or cls}_{f}", Val)
-            w = wt(t, ty[1])
-            facts.append(z3.Or(Val.is_VN(t), z3.And(*w) if w else z3.BoolVal(True)))
             vals[f] = VAny(t)
         elif isinstance(ty, tuple) and ty[0] == "record":
             v, fs = sym_record(eng, st, ty[1], f"{name or cls}_{f}")
